@@ -1405,6 +1405,17 @@ class Interp:
             if t is True or t is False:
                 return t
             return S(t, 'bool')
+        if name == 'isinstance' and len(args) == 2 and is_conc(args[0]) and not isinstance(args[0], (list, dict)) or \
+                (name == 'isinstance' and len(args) == 2 and isinstance(args[0], (list, dict)) and is_conc(args[0])):
+            tymap = {'int': int, 'list': list, 'str': str, 'bytes': bytes, 'bool': bool, 'tuple': tuple, 'dict': dict, 'float': float, 'TYPE_TEXT': str}
+            spec = args[1]
+            names = None
+            if isinstance(spec, S) and isinstance(spec.t, tuple) and spec.t[0] == 'global' and spec.t[1] in tymap:
+                names = [spec.t[1]]
+            elif isinstance(spec, tuple) and all(isinstance(x, S) and isinstance(x.t, tuple) and x.t[0] == 'global' and x.t[1] in tymap for x in spec):
+                names = [x.t[1] for x in spec]
+            if names is not None:
+                return isinstance(args[0], tuple(tymap[n] for n in names))
         if name == 'isinstance' and len(args) == 2:
             a = args[0]
             if is_conc(a) and isinstance(args[1], S):
